@@ -131,8 +131,48 @@ impl EventParser {
         events: &mut Vec<EventInfo>,
         symbols: &mut SymbolTable,
     ) {
+        // A binding made inside the block ends with the block
+        let outer = symbols.clone();
         for stmt in stmts {
             self.extract_events_from_stmt(stmt, file_path, type_resolver, events, symbols);
+        }
+        *symbols = outer;
+    }
+
+    /// The names a pattern binds hide what the same names meant before; their own types are
+    /// not known
+    fn unbind_pattern(pat: &Pat, symbols: &mut SymbolTable) {
+        match pat {
+            Pat::Ident(pat_ident) => {
+                symbols.remove(&pat_ident.ident.to_string());
+                if let Some((_, sub)) = &pat_ident.subpat {
+                    Self::unbind_pattern(sub, symbols);
+                }
+            }
+            Pat::Tuple(tuple) => tuple
+                .elems
+                .iter()
+                .for_each(|p| Self::unbind_pattern(p, symbols)),
+            Pat::TupleStruct(tuple) => tuple
+                .elems
+                .iter()
+                .for_each(|p| Self::unbind_pattern(p, symbols)),
+            Pat::Struct(pat_struct) => pat_struct
+                .fields
+                .iter()
+                .for_each(|f| Self::unbind_pattern(&f.pat, symbols)),
+            Pat::Slice(slice) => slice
+                .elems
+                .iter()
+                .for_each(|p| Self::unbind_pattern(p, symbols)),
+            Pat::Or(or) => or
+                .cases
+                .iter()
+                .for_each(|p| Self::unbind_pattern(p, symbols)),
+            Pat::Reference(reference) => Self::unbind_pattern(&reference.pat, symbols),
+            Pat::Paren(paren) => Self::unbind_pattern(&paren.pat, symbols),
+            Pat::Type(pat_type) => Self::unbind_pattern(&pat_type.pat, symbols),
+            _ => {}
         }
     }
 
@@ -189,8 +229,15 @@ impl EventParser {
                 let inferred_type = self.infer_type_from_init(&local_init.expr, symbols);
                 if inferred_type != "unknown" {
                     symbols.insert(var_name, inferred_type);
+                } else {
+                    // the new binding hides an earlier one of the same name
+                    symbols.remove(&var_name);
                 }
             }
+        }
+
+        if !matches!(&local.pat, Pat::Ident(_) | Pat::Type(_)) {
+            Self::unbind_pattern(&local.pat, symbols);
         }
 
         // Handle let var: Type (with type annotation via local.ty if it were available)
@@ -274,6 +321,8 @@ impl EventParser {
             }
             Expr::If(expr_if) => {
                 // if app.emit(..).is_err() { .. } / if let Err(e) = app.emit(..) { .. }
+                // (what the condition binds is visible in the then-branch only)
+                let outer = symbols.clone();
                 self.extract_events_from_expr(
                     &expr_if.cond,
                     file_path,
@@ -288,6 +337,7 @@ impl EventParser {
                     events,
                     symbols,
                 );
+                *symbols = outer;
                 if let Some((_, else_branch)) = &expr_if.else_branch {
                     self.extract_events_from_expr(
                         else_branch,
@@ -308,6 +358,8 @@ impl EventParser {
                     symbols,
                 );
                 for arm in &expr_match.arms {
+                    let outer = symbols.clone();
+                    Self::unbind_pattern(&arm.pat, symbols);
                     self.extract_events_from_expr(
                         &arm.body,
                         file_path,
@@ -315,6 +367,7 @@ impl EventParser {
                         events,
                         symbols,
                     );
+                    *symbols = outer;
                 }
             }
             Expr::Loop(expr_loop) => {
@@ -327,6 +380,7 @@ impl EventParser {
                 );
             }
             Expr::While(expr_while) => {
+                let outer = symbols.clone();
                 self.extract_events_from_expr(
                     &expr_while.cond,
                     file_path,
@@ -341,8 +395,18 @@ impl EventParser {
                     events,
                     symbols,
                 );
+                *symbols = outer;
             }
             Expr::ForLoop(expr_for) => {
+                self.extract_events_from_expr(
+                    &expr_for.expr,
+                    file_path,
+                    type_resolver,
+                    events,
+                    symbols,
+                );
+                let outer = symbols.clone();
+                Self::unbind_pattern(&expr_for.pat, symbols);
                 self.extract_events_from_block(
                     &expr_for.body.stmts,
                     file_path,
@@ -350,6 +414,7 @@ impl EventParser {
                     events,
                     symbols,
                 );
+                *symbols = outer;
             }
             // Blocks that are expressions of their own kind: unsafe { .. }, async move { .. }
             Expr::Unsafe(expr_unsafe) => {
@@ -372,6 +437,10 @@ impl EventParser {
             }
             // The body of a closure: move || { app.emit(..) }
             Expr::Closure(expr_closure) => {
+                let outer = symbols.clone();
+                for input in &expr_closure.inputs {
+                    Self::unbind_pattern(input, symbols);
+                }
                 self.extract_events_from_expr(
                     &expr_closure.body,
                     file_path,
@@ -379,6 +448,7 @@ impl EventParser {
                     events,
                     symbols,
                 );
+                *symbols = outer;
             }
             // Arguments of a call: tokio::spawn(async move { app.emit(..) })
             Expr::Call(expr_call) => {
@@ -424,6 +494,7 @@ impl EventParser {
                     events,
                     symbols,
                 );
+                Self::unbind_pattern(&expr_let.pat, symbols);
             }
             Expr::Return(expr_return) => {
                 if let Some(value) = &expr_return.expr {
